@@ -1,15 +1,181 @@
-"""Per-property settings used by bin/check (what the correspondence explores and how it is
-described in the evidence). The generators and judges themselves live in lean/Driver."""
+"""Per-property settings used by bin/check and bin/mkmanifest: what the theorems state, what the
+correspondence explores and how both are described in MANIFEST.json and in the evidence.
+The generators and judges themselves live in lean/Driver; the theorems in lean/IGVerif/Props."""
 
 PARSE_RULE = ("statements generated from the Lean grammar AST (Driver/GenStmt.lean): the driver renders each AST to "
-              "IG Script text and evaluates the model's meaning (`denote`), the harness runs parser.ParseStatement "
-              "on the same text, the driver compares canonical trees; a case is non-trivial when op+arguments are "
-              "distinct from every earlier case")
+              "IG Script text and evaluates the specification's meaning (`denoteTop`/`denoteLinked`); the harness runs "
+              "parser.ParseStatement on the same text in a worker process; the driver compares canonical trees node by node. "
+              "A case is non-trivial when its op+arguments differ from every earlier case of the run and its tag is not a smoke tag")
+TAB_RULE = ("statements from the grammar AST (simple, combined, nested, pair-expanded) x option sets (IG Extended/Core, annotations, "
+            "output type); the model's `Tab.exportAll` + `TabPrint.output` must equal the implementation's table byte for byte, and "
+            "independent table oracles (Driver/TabOracle.lean) re-derive rows, linkage cells and id resolution from the parsed tree "
+            "and judge the implementation's table directly. Non-trivial: distinct op+arguments with more than one row or a nested group")
+VIS_RULE = ("statements from the grammar AST x all 32 combinations of the five display options; the model's `Vis.visTop` serialised by "
+            "`Json.ser` must equal PrintTree's output byte for byte, and the output must parse as JSON (driver's own RFC 8259 parser). "
+            "Non-trivial: distinct op+arguments")
+WEB_RULE = ("form submissions generated from the field/option tables (every checkbox, selector, URL parameter, valid and invalid "
+            "values) posted in-process to the real handlers; the page is reduced to (status, embedded output, echoed fields, error code, "
+            "raw occurrences of user text) and compared with `Web.decode` applied to the same request plus the core conversion's output")
+
+T_PARSER = "the statement-level parser (regular expressions, bracket matching) is not modelled: it is specified by `denote` on the grammar AST and tied by differential execution over generated ASTs"
+T_TABULAR = "the tabular exporter is modelled by hand (`Tab.stmtRows`, static-header mode) and tied by byte-exact differential execution"
+T_VISUAL = "the visual printer is modelled by hand (`Vis.nodeJ` etc.) and tied by byte-exact differential execution over all 32 option sets"
 
 PROPS = {
     "C01": {
-        "level": "proof",
+        "claim": "partial proof: the component/field wiring tables of the parser are regenerated from source and proved equal to the specification's symbol table (every symbol reaches exactly its own field; 27 fields); the fidelity statement itself (parse (render s) = denote s: leaves in source order, operators and precedence as written, left-associated chains, implicit bAND, shared text) is decided by the correspondence run against the specification `denoteTop` over generated grammar ASTs, not by a theorem about the regex code",
+        "note": T_PARSER,
         "rule": PARSE_RULE,
         "assumptions": ["Go regexp/strings behave as documented", "texts are drawn from the word/punctuation alphabets of DESIGN.md section 3"],
+        "design_ref": "DESIGN.md section 4 C01, section 9",
+    },
+    "C02": {
+        "claim": "partial proof: theorems fix the specification of nesting (a nested statement is denoted by the same `denoteS` as a top-level one, attached under its symbol's complex field, conjoined or joined by the single written operator; combinations yield the written operator tree) and the regenerated nested-wiring table is proved equal to the specification's; agreement of parser.ParseStatement with that specification is decided by correspondence over generated nested ASTs to depth 3. Statement shapes outside the regex classifier's domain are an open known finding (C02-regex-shape)",
+        "note": T_PARSER + "; the `supported` predicate (Spec/Shape.lean) delimits the shapes on which agreement is demanded; failures outside it are reported as KNOWN-FINDING",
+        "rule": PARSE_RULE + "; generators produce both `supported` shapes (agreement demanded) and unsupported shapes (known-finding class)",
+        "assumptions": ["Go regexp/strings behave as documented"],
+        "design_ref": "DESIGN.md section 4 C02, section 9",
+    },
+    "C03": {
+        "claim": "partial proof: theorems fix the specification of pair expansion (one complete statement per group = group merged with everything outside, linked by exactly the written operator tree; no pairs => single statement) and the regenerated copy wiring (every field copied into the same field, target first, bAND) is proved equal to `mergeStmt`; agreement of the parser with the specification is decided by correspondence over generated pair ASTs (top level and nested)",
+        "note": T_PARSER,
+        "rule": PARSE_RULE,
+        "assumptions": ["Go regexp/strings behave as documented"],
+        "extra_ns": ["IGVerif.Ties"],
+        "design_ref": "DESIGN.md section 4 C03, section 9",
+    },
+    "C04": {
+        "claim": "proof: the code-shaped odometer model (`Odo.generate`, the loop of generateStatementMatrix) is proved, for all lists of alternatives of any size, to emit exactly the Cartesian product in lexicographic order - no row twice, none missing, count = product of sizes, single-valued components constant in every row, loop terminates within `count` steps; the leaf-array order is proved a permutation of the 27 fields from regenerated facts. The odometer model and the row/cell layout are tied to the code by differential execution (odometer op on random dimension vectors; full tables byte for byte)",
+        "note": T_TABULAR + "; the odometer itself is exercised in isolation through a build-tag hook",
+        "rule": TAB_RULE + "; plus `odo` cases: random dimension vectors (0-5 components, 1-4 alternatives) run through the real loop via the verif hook and compared with `Odo.generate`",
+        "assumptions": ["row blow-up bounded by generator (at most 256 rows per statement)"],
+        "extra_ns": ["IGVerif.Ties"],
+        "design_ref": "DESIGN.md section 4 C04, section 9",
+    },
+    "C05": {
+        "claim": "partial proof: operator collapsing is proved to return a sublist of the path operators that keeps the first operator and every non-conjunction operator (adjacent conjunction-type operators merge, nothing else is dropped or reordered); the linkage search (`Link.find`, searchUp/searchDown with the code's probes) and the cell layout are code-shaped models tied byte for byte; an independent oracle recomputes, from the parsed tree, for every row and every other alternative the rows carrying it and the tree-path operators, checks mutuality, and judges the implementation's table directly",
+        "note": T_TABULAR,
+        "rule": TAB_RULE,
+        "assumptions": [],
+        "extra_ns": [],
+        "design_ref": "DESIGN.md section 4 C05, section 9",
+    },
+    "C06": {
+        "claim": "partial proof: id construction is proved injective for all ids and indices (decimal rendering injective; id.i = id.j => i = j; {id}.i = {id}.j => i = j; an atomic-row id never equals a nested-group id; the registry hands out the next number to a new node and the old id to a known one); that every id mentioned in reference and linkage cells (ranges expanded) denotes a row or group of the same table, and that every nested group is referenced from its parent rows, is decided on the implementation's tables by the resolution oracle and byte-exact model agreement",
+        "note": T_TABULAR,
+        "rule": TAB_RULE,
+        "assumptions": ["user-supplied statement ids in generated cases consist of letters, digits and dots"],
+        "design_ref": "DESIGN.md section 4 C06, section 9",
+    },
+    "C07": {
+        "claim": "proof: for every string, `cleanInput` output contains no line break and no separator, `escape`/`adjust` output contains no double quote (theorems over all strings); regenerated facts prove that every write into the statement matrix and every user-text argument of the printer passes through those sanitisers; rectangularity and header/data consistency are decided on the implementation's output by a table parser oracle over hostile inputs (separators, quotes, CR/LF, leading apostrophes) and by byte-exact agreement with `TabPrint.output`",
+        "note": T_TABULAR + "; Go's strings.Replace/regexp are trusted to behave as the character-level model",
+        "rule": "hostile texts (cell separator, double quote, CR, LF, CRLF, leading apostrophe, brackets, unicode) planted in statement text, annotations, original statement, statement id, x output type x header/original/IG-Script column options; the printed table is parsed by the driver's own splitter and judged (cells per line = header, forbidden characters absent, SPLIT formula complete, optional columns as selected) and compared byte for byte with `TabPrint.output`",
+        "assumptions": [],
+        "design_ref": "DESIGN.md section 4 C07, section 9",
+    },
+    "C08": {
+        "claim": "proof: the serialiser `Json.ser` is proved, for every JNode tree (any size, any strings), to produce a member of an inductively defined RFC 8259 grammar (`ValidJSON`), and `escape` is proved to map every string into the JSON string-body grammar; the visual model `Vis.visTop` is proved to produce only well-formed JNodes for every parsed tree and all 32 option sets, hence valid JSON; regenerated facts prove every dynamic text site of the Go printer passes through escapeForTreeOutput; the model is tied to PrintTree byte for byte",
+        "note": T_VISUAL,
+        "rule": VIS_RULE + "; hostile characters (quotes, backslashes, control characters, unicode) planted in every text position",
+        "assumptions": ["the successful-output path of ConvertIGScriptToVisualTree is PrintTree's string unchanged (fact-checked endpoint arguments)"],
+        "design_ref": "DESIGN.md section 4 C08, section 9",
+    },
+    "C09": {
+        "claim": "partial proof: regenerated facts prove that PrintTree prints every statement field (directly or as property of a printed one) in the model's order, passes the display options through every recursive call unchanged, and prints nested and pair statements one level deeper; that the printed tree contains per component the same operator tree, leaves, shared text, nested statements, properties and annotations as the parsed statement is decided by byte-exact agreement of PrintTree's output with `Vis.visTop` evaluated on the implementation's own parse tree (the model is a structural recursion over the parsed tree that emits one object per value, operator and nested statement)",
+        "note": T_VISUAL,
+        "rule": VIS_RULE,
+        "assumptions": [],
+        "extra_ns": ["IGVerif.Ties"],
+        "design_ref": "DESIGN.md section 4 C09, section 9",
+    },
+    "C10": {
+        "claim": "partial proof: a theorem about a model cannot exhibit a Go panic, os.Exit or a runaway regular expression; what is proved is termination of the one data-dependent loop of the export (odometer ends within `count` emissions) and totality of every model function (Lean's termination checker). Panics, process exits and hangs of the real code are decided by running hostile and large generated inputs through both conversions in isolated worker processes with crash attribution and a per-case time limit",
+        "note": "runtime behaviour (panic, exit, regex backtracking time) is outside the model; time limits are wall-clock on this machine",
+        "rule": "inputs: random bytes, bracket soups, truncated and mutated well-formed statements, deep nesting, long operator chains, practical-size statements (up to 40 components) x both conversions x option sets; each case runs in a worker process; outcome is returned/exit/panic/timeout; a well-formed statement must finish within the per-case limit",
+        "assumptions": ["per-case time limit 20 s (quick) stands for 'within seconds' on a 16-core sandbox under load"],
+        "extra_ns": ["IGVerif.C04"],
+        "extra_imports": ["IGVerif.Props.C04"],
+        "design_ref": "DESIGN.md section 4 C10, section 9",
+    },
+    "C11": {
+        "claim": "partial proof: the error codes of the documented rules are regenerated from source and proved pairwise different and equal to the codes the judge expects; rejection itself is regex/bracket-matching code outside the model and is decided by correspondence: each rule violation is planted at every applicable site of generated well-formed statements (top level, nested, inside pair groups), both conversions must return that code and no output, well-formed statements must be accepted, and both conversions must agree. Two rule/site combinations are open known findings",
+        "note": T_PARSER,
+        "rule": "well-formed ASTs from the grammar generators; for each documented rule a planting function produces the malformed text at each applicable site; expected = (specific error code, empty output) for both ConvertIGScriptToTabularOutput and ConvertIGScriptToVisualTree; plus unplanted well-formed statements expecting acceptance",
+        "assumptions": [],
+        "design_ref": "DESIGN.md section 4 C11, section 9",
+    },
+    "C12": {
+        "claim": "partial proof: the model's conversions are functions (determinism by rfl); the only sources of run-to-run variation in the Go code are map iteration and shared mutable nodes; the complete list of map-range sites of the parser, tree and exporter packages is regenerated from source and proved equal to the reviewed list (each reviewed as order-insensitive), so a new or changed site breaks the obligation; byte-identical output across 5 repetitions in one process and 3 separately started processes is decided on generated statements for both conversions",
+        "note": "Go map iteration randomisation is exercised, not modelled",
+        "rule": "generated statements (all families) x both conversions x option sets, each converted 5 times in one process and in 3 fresh processes; all outputs and error codes must be byte-identical",
+        "assumptions": [],
+        "case_timeout": "180s",
+        "design_ref": "DESIGN.md section 4 C12, section 9",
+    },
+    "C13": {
+        "claim": "proof: the request-processing state machine (handler = fixed sequence of setter writes covering every global the conversion reads, then conversion) is proved history independent for every sequence of earlier requests: the response equals a fresh system's; the premises (which globals each endpoint reads, which setters each handler calls, with which request fields) are regenerated from source by SSA analysis and proved to satisfy the `covered` hypothesis; tied by replaying random request histories against the real handlers and a fresh process",
+        "note": "globals reached only through reflection or cgo would escape the SSA read/write sets (none present); html/template and net/http are not modelled",
+        "rule": "random histories of 1-8 requests (tabular/visual, random options, valid and invalid statements) posted in one process, then a probe request; the probe's page must equal the page a freshly started process returns",
+        "assumptions": [],
+        "design_ref": "DESIGN.md section 4 C13, section 9",
+    },
+    "C14": {
+        "claim": "proof: in the interleaving model of the handlers (program counters over setter writes and conversion, one global store, a lock) every schedule of any number of requests is proved to give each request the response it gets alone, provided the lock brackets all global accesses; the bracket is regenerated from source (Lock at statement 52, deferred Unlock at 53, every global access later) and proved; without the lock the model has a concrete leaking interleaving (theorem), which is the defect repaired in /repo; tied by a controlled scheduler driving the real handlers through yield hooks",
+        "note": "the Go memory model and sync.Mutex are trusted; yields are placed at the hook points between setter writes and conversion",
+        "rule": "pairs and triples of requests with conflicting options; the driver enumerates interleavings feasible under the lock discipline; the harness forces each schedule on the real handlers via verifYield hooks; every response must equal the response alone",
+        "assumptions": [],
+        "case_timeout": "60s",
+        "design_ref": "DESIGN.md section 4 C14, section 9",
+    },
+    "C15": {
+        "claim": "proof: `Web.decode` (form -> conversion call) is proved to hand every checkbox, selector and URL parameter to the option it names, to echo statement/original/id unchanged, and to make no conversion call for invalid canvas sizes; the decode table (form field -> setter -> endpoint argument) is regenerated from the handlers' source and proved equal to the model's; tied by posting generated forms to the real handlers and comparing the page's embedded output with the core conversion called directly",
+        "note": "html/template escaping is trusted and additionally checked on every generated page (no raw occurrence of user text)",
+        "rule": WEB_RULE,
+        "assumptions": [],
+        "design_ref": "DESIGN.md section 4 C15, section 9",
+    },
+    "C16": {
+        "claim": "partial proof: the pairing of components with their property fields is regenerated from source and proved equal to the specification's; theorems: without a matching suffix the statement is unchanged (properties stay shared), the attached private value keeps its component type, removal/attachment with nothing to do are identities; the full attachment statement (only matching values, withdrawn from shared, both exports) is decided by correspondence of the parser with `denoteLinked` and of both exports with their models. One open known finding (removal after root collapse)",
+        "note": T_PARSER,
+        "rule": PARSE_RULE + "; statements carry suffixed and unsuffixed properties and annotations on combined components",
+        "assumptions": [],
+        "extra_ns": ["IGVerif.Ties"],
+        "design_ref": "DESIGN.md section 4 C16, section 9",
+    },
+    "C17": {
+        "claim": "partial proof: moving activation conditions first is proved a permutation of the printed fields that leaves the order of all others unchanged; annotation members are proved present exactly when selected; invariance of the (component, value, level) entry set under all 32 option sets, exactly-two children in binary mode and collapsing only of directly nested identical operators are decided by reading each output back into entries (oracle) and by byte-exact agreement with the model",
+        "note": T_VISUAL,
+        "rule": VIS_RULE + "; the 32 outputs of one statement form a group whose entry multisets must coincide",
+        "assumptions": [],
+        "design_ref": "DESIGN.md section 4 C17, section 9",
+    },
+    "C18": {
+        "claim": "partial proof: inserting, changing or removing unannotated text anywhere between annotations is proved, for every statement and every position, not to change the specification's meaning (provided the text spells no bracketed operator between nested statements); reordering annotations of different types and the agreement of the parser and both exports are decided by correspondence on generated variants (permutations that keep same-symbol order; filler insertion/removal)",
+        "note": T_PARSER,
+        "rule": "for each generated statement: variants by permuting parts of different symbols and by inserting/changing/removing filler words and punctuation; parse tree and both exports must be identical to the original's",
+        "assumptions": [],
+        "design_ref": "DESIGN.md section 4 C18, section 9",
+    },
+    "C19": {
+        "claim": "partial proof: the sites where the export reads the IG Extended switch are regenerated from source and proved to be the model's `o.ext` branches only; that top-level rows and non-reference cells coincide, Extended adds one row group per nested statement with its id in the reference cell and Core adds no rows and prints the nested text is decided by an oracle comparing both tables of each generated statement, and by byte-exact agreement with the model in both modes",
+        "note": T_TABULAR,
+        "rule": TAB_RULE + "; each statement is exported in both modes and the pair is judged",
+        "assumptions": [],
+        "design_ref": "DESIGN.md section 4 C19, section 9",
+    },
+    "C20": {
+        "claim": "proof: the DoV model is proved to satisfy the documented recurrence for every tree (1 for a leaf; l+r-1 for AND/bAND/wAND; l+r for XOR; l+r+1 for OR; nested statement = its own total; total = max(1, sum of component values > 1) x max(1, condition value)); the bindings of CalculateComplexity (which field feeds which term, the node cases, the helper loops) are regenerated from source and proved equal to the model's; tied by comparing every DoV member of the visual output with the model",
+        "note": "integer overflow is not modelled (Nat); values stay far below 2^63 on practical inputs",
+        "rule": VIS_RULE + " with Degree of Variability enabled; every node's DoV member is compared",
+        "assumptions": [],
+        "extra_ns": ["IGVerif.Ties"],
+        "design_ref": "DESIGN.md section 4 C20, section 9",
     },
 }
+
+for _k, _v in PROPS.items():
+    _v.setdefault("level", "proof")
+
+HOOK_COMMITS = ["426229bdb2bf7a700b84f76af23efa1d02624075", "433afbd6367bfa00c9101a4e7f7b903252a76025"]
+NOT_APPLICABLE = {}
